@@ -128,7 +128,24 @@ def rule_char_maps(prog, res):
         fa = FA(f, prog)
         calls = [callee_of(t) for b, t in f.calls()]
         ok = CHARS + "::to_char" in calls and any(c and "slice::Iter" in c and c.endswith("::next") for c in calls)
-        res.ob("X-map", "chars().next() | yields to_char of the next stored byte", ok, str(calls), f.loc)
+        # value flow: every Some(..) returned is to_char(*item) with item the iterator's own next() result, nothing in between
+        somes = 0
+        for b in sorted(f.reachable()):
+            for i, s_ in enumerate(f.blocks[b]["stmts"]):
+                if s_["k"] == "assign" and s_["place"]["local"] == 0 and s_["rv"]["k"] == "aggregate" and s_["rv"].get("vname") == "Some":
+                    somes += 1
+                    v = fa.rv_term(s_["rv"], (b, i))
+                    x = v.args[3][0]
+                    good = x.op == "call" and x.args[0] == CHARS + "::to_char"
+                    if good:
+                        y = x.args[1][0]
+                        while y.op in ("memval", "mem"):
+                            y = y.args[0]
+                        # payload of `?` (Try::branch .. Continue) on slice::Iter::next
+                        good = not any(z.op in ("bin", "un", "cast") for z in subterms(x.args[1][0])) and \
+                            any(z.op == "call" and "slice::Iter" in z.args[0] and z.args[0].endswith("::next") for z in subterms(x.args[1][0]))
+                    ok = ok and good
+        res.ob("X-map", "chars().next() | yields to_char of the next stored byte, unmodified", ok and somes >= 1, str(calls), f.loc)
 
 
 def rule_capacity(prog, res):
@@ -304,6 +321,24 @@ def rule_utf8_writers(prog, res):
             ok = any(g[0] is mk("discr", r) and g[1] == "eq" and g[2] == 0 for g in fa.guards(b))
             d = "ArrayString::from(Ok payload of %s)" % show(r, fa.names)
     res.ob("X-utf8", "1029 decode | text is accepted only on the Ok arm of core::str::from_utf8", ok, d, f.loc, sample=d)
+    # what is validated and kept is exactly the `len` bytes announced by the 8-bit byte count, taken from the parser's position
+    okf = False
+    dd = ""
+    fu = [(b, fa.call_args(b)) for b, t in f.calls() if callee_of(t) == "core::str::from_utf8"]
+    if len(fu) == 1:
+        from framing_slices import as_slice
+        sl = as_slice(fu[0][1][0])
+        if sl is not None and sl[3] == "RangeTo":
+            base, lo, hi, kind = sl
+            x = hi
+            while x.op == "cast":
+                x = x.args[1]
+            from lists import _continue_payload
+            src = _continue_payload(x)
+            isdata = base.op == "call" and base.args[0] == "df::parser::Parser::data"
+            okf = isdata and src is not None and src.op == "call" and src.args[0] == "df::parser::Parser::parse" and is_const(src.args[1][1]) and const_val(src.args[1][1]) == 8
+            dd = "from_utf8(%s[..%s])" % (show(base, fa.names), show(hi, fa.names))
+    res.ob("X-utf8", "1029 decode | the text is exactly the `byte count` bytes at the parser's position", okf, dd, f.loc)
     errs = set()
     for b in sorted(f.reachable()):
         for i, s in enumerate(f.blocks[b]["stmts"]):
@@ -326,6 +361,23 @@ def rule_limits(prog, res):
     puts = [(b, fa.call_args(b), t) for b, t in f.calls() if callee_of(t) == "df::assembler::Assembler::put"]
     counts = [(b, a, t) for b, a, t in puts if any(x.op == "call" and ("count" in x.args[0] or x.args[0].endswith("::len")) for x in subterms(a[1]))]
     res.ob("X-lim", "1029 encode | two count fields (characters, bytes)", len(counts) == 2, "found %d" % len(counts), f.loc)
+    # both counts and the bytes are taken from the same string: the deref of the argument
+    def from_arg_string(t, blk=None, depth=0):
+        for x in subterms(t):
+            if x.op == "loc" and depth < 2 and blk is not None:
+                if from_arg_string(fa.val(x.args[1], (blk, 10 ** 6)), blk, depth + 1):
+                    return True
+            if x.op == "call" and x.args[0] in ("core::str::<impl str>::chars", "core::str::<impl str>::bytes"):
+                y = x.args[1][0]
+                while y.op in ("ref", "mem", "memval"):
+                    y = y.args[0]
+                if y.op == "call" and y.args[0].endswith("ArrayString<N> as core::ops::Deref>::deref"):
+                    z = y.args[1][0]
+                    while z.op in ("ref", "mem", "memval"):
+                        z = z.args[0]
+                    return z.op == "arg" and z.args[1] == 2
+        return False
+    res.ob("X-lim", "1029 encode | counts are computed on the message's own text", all(from_arg_string(a[1], b) for b, a, t in counts) and len(counts) == 2, "", f.loc)
     kinds = {}
     for b, a, t in counts:
         w = const_val(a[2]) if is_const(a[2]) else None
